@@ -29,18 +29,18 @@ theorem reachable_inv (s0 : State) (h0 : IsInit s0) (ops : List Op) : Inv (run s
 /-- `ids_fresh`: the id the next send / bridge call will get is not in use anywhere (pool, batch, settled log), every id
 in use is smaller, and the counters never decrease — so an id is never reused, also across cancel / re-pooling -/
 theorem ids_fresh (s0 : State) (h0 : IsInit s0) (ops : List Op) :
-    let s := run s0 ops
-    (∀ id ∈ allTxIds s, 1 ≤ id ∧ id < s.nextTxId) ∧ s.nextTxId ∉ allTxIds s ∧
-    (∀ id ∈ allCallIds s, 1 ≤ id ∧ id < s.nextCallId) ∧ s.nextCallId ∉ allCallIds s := by
-  intro s
+    (∀ id ∈ allTxIds (run s0 ops), 1 ≤ id ∧ id < (run s0 ops).nextTxId) ∧
+    (run s0 ops).nextTxId ∉ allTxIds (run s0 ops) ∧
+    (∀ id ∈ allCallIds (run s0 ops), 1 ≤ id ∧ id < (run s0 ops).nextCallId) ∧
+    (run s0 ops).nextCallId ∉ allCallIds (run s0 ops) := by
   have hi := reachable_inv s0 h0 ops
-  have h1 : ∀ id ∈ allTxIds s, 1 ≤ id ∧ id < s.nextTxId := by
+  have h1 : ∀ id ∈ allTxIds (run s0 ops), 1 ≤ id ∧ id < (run s0 ops).nextTxId := by
     intro id hid
     have := (hi.tx.mem_iff).mp hid
     simp only [mem_range'_1] at this
     have := hi.txPos
     omega
-  have h2 : ∀ id ∈ allCallIds s, 1 ≤ id ∧ id < s.nextCallId := by
+  have h2 : ∀ id ∈ allCallIds (run s0 ops), 1 ≤ id ∧ id < (run s0 ops).nextCallId := by
     intro id hid
     have := (hi.call.mem_iff).mp hid
     simp only [mem_range'_1] at this
@@ -48,45 +48,40 @@ theorem ids_fresh (s0 : State) (h0 : IsInit s0) (ops : List Op) :
     omega
   exact ⟨h1, fun h => by have := h1 _ h; omega, h2, fun h => by have := h2 _ h; omega⟩
 
-/-- a successful send issues exactly the announced id and advances the counter by one -/
-theorem send_issues_next_id (s : State) (a : Addr) (d : String) (t : Token) (am f n : Nat)
-    (h : (doSend s a d t am f).2 = .ok n) : n = s.nextTxId ∧ (doSend s a d t am f).1.nextTxId = s.nextTxId + 1 := by
-  unfold doSend at *
+/-- a successful send issues exactly the counter value and advances the counter by one -/
+theorem send_issues_next_id (s s' : State) (a : Addr) (d : String) (t : Token) (am f n : Nat)
+    (h : doSend s a d t am f = (s', .ok n)) : n = s.nextTxId ∧ s'.nextTxId = s.nextTxId + 1 := by
+  unfold doSend at h
   split at h
   · cases h
   · split at h
     · cases h
-    · simp only [Res.ok.injEq] at h
-      simp [h, *]
+    · cases h; exact ⟨rfl, rfl⟩
 
 /-- `partition`: in every reachable state every id ever issued (`1 ≤ id < nextTxId`) occurs exactly once in
-pool ++ batches ++ settled log — i.e. it is in exactly one of: the pool, exactly one batch (once), the settled log -/
+pool ++ batches ++ settled log — i.e. it is in exactly one of: the pool, exactly one batch (once), the settled log;
+nothing else occurs there -/
 theorem partition (s0 : State) (h0 : IsInit s0) (ops : List Op) :
-    let s := run s0 ops
-    (∀ id, 1 ≤ id → id < s.nextTxId → count id (allTxIds s) = 1) ∧
-    (∀ id, count id (allTxIds s) ≤ 1) ∧
-    (∀ n, 1 ≤ n → n < s.nextCallId → count n (allCallIds s) = 1) ∧
-    (∀ n, count n (allCallIds s) ≤ 1) := by
-  intro s
+    (∀ id, 1 ≤ id → id < (run s0 ops).nextTxId → count id (allTxIds (run s0 ops)) = 1) ∧
+    (∀ id, count id (allTxIds (run s0 ops)) ≤ 1) ∧
+    (∀ n, 1 ≤ n → n < (run s0 ops).nextCallId → count n (allCallIds (run s0 ops)) = 1) ∧
+    (∀ n, count n (allCallIds (run s0 ops)) ≤ 1) := by
   have hi := reachable_inv s0 h0 ops
-  have nd1 : (allTxIds s).Nodup := hi.tx.nodup_iff.mpr (nodup_range' _ _)
-  have nd2 : (allCallIds s).Nodup := hi.call.nodup_iff.mpr (nodup_range' _ _)
-  refine ⟨fun id h1 h2 => ?_, fun id => nodup_iff_count_le_one.mp nd1 id, fun n h1 h2 => ?_,
-    fun n => nodup_iff_count_le_one.mp nd2 n⟩
-  · refine count_eq_one_of_mem nd1 ((hi.tx.mem_iff).mpr ?_)
-    simp only [mem_range'_1]; omega
-  · refine count_eq_one_of_mem nd2 ((hi.call.mem_iff).mpr ?_)
-    simp only [mem_range'_1]; omega
+  have nd1 : (allTxIds (run s0 ops)).Nodup := hi.tx.nodup_iff.mpr nodup_range'
+  have nd2 : (allCallIds (run s0 ops)).Nodup := hi.call.nodup_iff.mpr nodup_range'
+  refine ⟨fun id h1 h2 => ?_, fun id => nodup_iff_count.mp nd1 id, fun n h1 h2 => ?_, fun n => nodup_iff_count.mp nd2 n⟩
+  · have hm : id ∈ allTxIds (run s0 ops) := (hi.tx.mem_iff).mpr (by simp only [mem_range'_1]; omega)
+    rw [nd1.count, if_pos hm]
+  · have hm : n ∈ allCallIds (run s0 ops) := (hi.call.mem_iff).mpr (by simp only [mem_range'_1]; omega)
+    rw [nd2.count, if_pos hm]
 
 /-- the three places are pairwise disjoint and duplicate free (unfolding `partition`) -/
 theorem places_disjoint (s0 : State) (h0 : IsInit s0) (ops : List Op) :
-    let s := run s0 ops
-    (poolIds s).Nodup ∧ (batchIds s).Nodup ∧ (settledTxIds s.settled).Nodup ∧
-    (∀ id ∈ poolIds s, id ∉ batchIds s ∧ id ∉ settledTxIds s.settled) ∧
-    (∀ id ∈ batchIds s, id ∉ settledTxIds s.settled) := by
-  intro s
+    (poolIds (run s0 ops)).Nodup ∧ (batchIds (run s0 ops)).Nodup ∧ (settledTxIds (run s0 ops).settled).Nodup ∧
+    (∀ id ∈ poolIds (run s0 ops), id ∉ batchIds (run s0 ops) ∧ id ∉ settledTxIds (run s0 ops).settled) ∧
+    (∀ id ∈ batchIds (run s0 ops), id ∉ settledTxIds (run s0 ops).settled) := by
   have hi := reachable_inv s0 h0 ops
-  have nd : (allTxIds s).Nodup := hi.tx.nodup_iff.mpr (nodup_range' _ _)
+  have nd : (allTxIds (run s0 ops)).Nodup := hi.tx.nodup_iff.mpr nodup_range'
   simp only [allTxIds, nodup_append, mem_append] at nd
   obtain ⟨⟨np, nb, hpb⟩, ns, hps⟩ := nd
   refine ⟨np, nb, ns, fun id hid => ⟨fun hb => hpb id hid id hb rfl, fun hs => hps id (Or.inl hid) id hs rfl⟩,
@@ -96,20 +91,33 @@ theorem places_disjoint (s0 : State) (h0 : IsInit s0) (ops : List Op) :
 theorem settled_once (s0 : State) (h0 : IsInit s0) (ops : List Op) :
     (settledTxIds (run s0 ops).settled).Nodup ∧ (settledCallIds (run s0 ops).settled).Nodup := by
   have hi := reachable_inv s0 h0 ops
-  have nd1 : (allTxIds (run s0 ops)).Nodup := hi.tx.nodup_iff.mpr (nodup_range' _ _)
-  have nd2 : (allCallIds (run s0 ops)).Nodup := hi.call.nodup_iff.mpr (nodup_range' _ _)
+  have nd1 : (allTxIds (run s0 ops)).Nodup := hi.tx.nodup_iff.mpr nodup_range'
+  have nd2 : (allCallIds (run s0 ops)).Nodup := hi.call.nodup_iff.mpr nodup_range'
   simp only [allTxIds, allCallIds, nodup_append] at nd1 nd2
   exact ⟨nd1.2.1, nd2.2.1⟩
 
 /-- `executed_never_refunded` (transfers): the settlement log never contains both an execution and a refund of the same
-transfer id; a settled transfer is in neither the pool nor a batch; and the log only grows, so this stays so forever -/
+transfer id (with `places_disjoint`: a settled transfer is in neither the pool nor a batch; with `settled_log_grows`:
+for ever) -/
 theorem executed_never_refunded (s0 : State) (h0 : IsInit s0) (ops : List Op) (e1 e2 : Settle)
     (h1 : e1 ∈ (run s0 ops).settled) (h2 : e2 ∈ (run s0 ops).settled) (hc1 : e1.isCall = false) (hc2 : e2.isCall = false)
     (hid : e1.id = e2.id) (hx : e1.how = .executed) (hr : e2.how = .refunded) : False := by
   have nd := (settled_once s0 h0 ops).1
   have m1 : e1 ∈ (run s0 ops).settled.filter (fun x => !x.isCall) := by simp [mem_filter, h1, hc1]
   have m2 : e2 ∈ (run s0 ops).settled.filter (fun x => !x.isCall) := by simp [mem_filter, h2, hc2]
-  have := inj_on_of_nodup_map nd m1 m2 hid
+  have := nodup_map_inj (fun x : Settle => x.id) ((run s0 ops).settled.filter (fun x => !x.isCall)) nd e1 m1 e2 m2 hid
+  rw [this, hr] at hx
+  cases hx
+
+/-- the same for bridge calls *as far as fxcore's own settlements go*: a bridge call is never both applied as executed
+(`ExecuteClaim` of a successful result) and refunded -/
+theorem call_settled_never_both (s0 : State) (h0 : IsInit s0) (ops : List Op) (e1 e2 : Settle)
+    (h1 : e1 ∈ (run s0 ops).settled) (h2 : e2 ∈ (run s0 ops).settled) (hc1 : e1.isCall = true) (hc2 : e2.isCall = true)
+    (hid : e1.id = e2.id) (hx : e1.how = .executed) (hr : e2.how = .refunded) : False := by
+  have nd := (settled_once s0 h0 ops).2
+  have m1 : e1 ∈ (run s0 ops).settled.filter (fun x => x.isCall) := by simp [mem_filter, h1, hc1]
+  have m2 : e2 ∈ (run s0 ops).settled.filter (fun x => x.isCall) := by simp [mem_filter, h2, hc2]
+  have := nodup_map_inj (fun x : Settle => x.id) ((run s0 ops).settled.filter (fun x => x.isCall)) nd e1 m1 e2 m2 hid
   rw [this, hr] at hx
   cases hx
 
@@ -127,16 +135,15 @@ theorem cancel_only_by_sender (s : State) (id : Nat) (who : Addr) (tx : Tx)
 
 /-- `refund_exact` (cancel): a successful cancel removes exactly that transfer from the pool, credits exactly
 amount + fee of its token to its creator, changes no other balance, and logs exactly that refund -/
-theorem refund_exact (s : State) (id : Nat) (who : Addr) (n : Nat) (h : (doCancel s id who).2 = .ok n) :
-    ∃ tx, tx ∈ s.pool ∧ tx.id = id ∧ tx.sender = who ∧
-      (doCancel s id who).1.pool = s.pool.erase tx ∧
-      (∀ k, getBal (doCancel s id who).1.bal k
-          = if k = (who, tx.token) then getBal s.bal k + (tx.amount + tx.fee) else getBal s.bal k) ∧
-      (doCancel s id who).1.settled = s.settled ++ [⟨false, id, .refunded, who, [(tx.token, tx.amount + tx.fee)]⟩] ∧
-      (doCancel s id who).1.batches = s.batches ∧ (doCancel s id who).1.calls = s.calls := by
+theorem refund_exact (s s' : State) (id : Nat) (who : Addr) (n : Nat) (h : doCancel s id who = (s', .ok n)) :
+    ∃ tx, tx ∈ s.pool ∧ tx.id = id ∧ tx.sender = who ∧ s'.pool = s.pool.erase tx ∧
+      (∀ k, getBal s'.bal k = if k = (who, tx.token) then getBal s.bal k + (tx.amount + tx.fee) else getBal s.bal k) ∧
+      s'.settled = s.settled ++ [⟨false, id, .refunded, who, [(tx.token, tx.amount + tx.fee)]⟩] ∧
+      s'.batches = s.batches ∧ s'.calls = s.calls := by
   have hc : cancelSenderCheck = true := by decide
-  have hterms : ∀ tx : Tx, refundAmount tx = tx.amount + tx.fee := by intro tx; simp [refundAmount]; decide
-  unfold doCancel at *
+  have hterms : ∀ tx : Tx, refundAmount tx = tx.amount + tx.fee := by
+    intro tx; simp [refundAmount, cancelRefundTerms]
+  unfold doCancel at h
   split at h
   · cases h
   · split at h
@@ -145,6 +152,7 @@ theorem refund_exact (s : State) (id : Nat) (who : Addr) (n : Nat) (h : (doCance
       split at h
       · cases h
       · rename_i hs
+        cases h
         have hid : tx.id = id := by simpa using find?_some hf
         have hsender : tx.sender = who := by simpa [hc] using hs
         refine ⟨tx, mem_of_find?_eq_some hf, hid, hsender, rfl, fun k => ?_, by simp [hterms, hid], rfl, rfl⟩
@@ -161,14 +169,14 @@ theorem refund_exact_call (s : State) (c : Call) (a : Addr) (t : Token) :
 
 /-- `increase_fee_exact`: a successful fee increase costs the payer exactly the added fee, raises the fee of exactly
 that transfer by exactly that amount, leaves every other field, transfer, balance and the settlement log unchanged -/
-theorem increase_fee_exact (s : State) (id : Nat) (who : Addr) (t : Token) (add n : Nat)
-    (h : (doIncFee s id who t add).2 = .ok n) :
+theorem increase_fee_exact (s s' : State) (id : Nat) (who : Addr) (t : Token) (add n : Nat)
+    (h : doIncFee s id who t add = (s', .ok n)) :
     ∃ tx, tx ∈ s.pool ∧ tx.id = id ∧ tx.token = t ∧
-      ((doIncFee s id who t add).1.pool).Perm ({ tx with fee := tx.fee + add } :: s.pool.erase tx) ∧
+      s'.pool.Perm ({ tx with fee := tx.fee + add } :: s.pool.erase tx) ∧
       add ≤ getBal s.bal (who, t) ∧
-      (∀ k, getBal (doIncFee s id who t add).1.bal k = if k = (who, t) then getBal s.bal k - add else getBal s.bal k) ∧
-      (doIncFee s id who t add).1.settled = s.settled ∧ (doIncFee s id who t add).1.batches = s.batches := by
-  unfold doIncFee at *
+      (∀ k, getBal s'.bal k = if k = (who, t) then getBal s.bal k - add else getBal s.bal k) ∧
+      s'.settled = s.settled ∧ s'.batches = s.batches := by
+  unfold doIncFee at h
   split at h
   · cases h
   · split at h
@@ -177,8 +185,10 @@ theorem increase_fee_exact (s : State) (id : Nat) (who : Addr) (t : Token) (add 
       split at h
       · cases h
       · rename_i hs
+        cases h
         have hid : tx.id = id := by simpa using find?_some hf
-        refine ⟨tx, mem_of_find?_eq_some hf, hid, by omega, insertDesc_perm _ _, by omega, fun k => ?_, rfl, rfl⟩
+        simp only [not_or, Decidable.not_not, Nat.not_lt, ne_eq] at hs
+        refine ⟨tx, mem_of_find?_eq_some hf, hid, hs.2.1, insertDesc_perm _ _, hs.2.2, fun k => ?_, rfl, rfl⟩
         simp only [getBal_subBal]
         split <;> simp_all
 
@@ -199,29 +209,29 @@ theorem cleanup_and_execution_cancel (s : State) (b : Batch) :
   refine ⟨rfl, ?_⟩
   simp [executeBatch, h1, h2, Cmp.eval]
 
-/-- `queued_is_supplied` (send): what enters the pool is exactly what the sender supplied, under the fresh id -/
-theorem queued_is_supplied_send (s : State) (a : Addr) (d : String) (t : Token) (am f n : Nat)
-    (h : (doSend s a d t am f).2 = .ok n) :
-    (doSend s a d t am f).1.pool.Perm (⟨s.nextTxId, a, d, t, am, f⟩ :: s.pool) ∧
-    (doSend s a d t am f).1.batches = s.batches ∧
-    (∀ k, getBal (doSend s a d t am f).1.bal k = if k = (a, t) then getBal s.bal k - (am + f) else getBal s.bal k) ∧
+/-- `queued_is_supplied` (send): what enters the pool is exactly what the sender supplied, under the fresh id, and the
+sender pays exactly amount + fee -/
+theorem queued_is_supplied_send (s s' : State) (a : Addr) (d : String) (t : Token) (am f n : Nat)
+    (h : doSend s a d t am f = (s', .ok n)) :
+    s'.pool.Perm (⟨s.nextTxId, a, d, t, am, f⟩ :: s.pool) ∧ s'.batches = s.batches ∧ s'.settled = s.settled ∧
+    (∀ k, getBal s'.bal k = if k = (a, t) then getBal s.bal k - (am + f) else getBal s.bal k) ∧
     am + f ≤ getBal s.bal (a, t) := by
-  unfold doSend at *
+  unfold doSend at h
   split at h
   · cases h
   · split at h
     · cases h
-    · refine ⟨insertDesc_perm _ _, rfl, fun k => ?_, by omega⟩
+    · cases h
+      refine ⟨insertDesc_perm _ _, rfl, rfl, fun k => ?_, by omega⟩
       simp only [getBal_subBal]
       split <;> simp_all
 
 /-- `queued_is_supplied` (bridge call): the stored record carries exactly the sender, refund address, tokens, target,
 call data and memo supplied, under the fresh nonce -/
-theorem queued_is_supplied_call (s : State) (a r : Addr) (to d m : String) (cs : List (Token × Nat)) (n : Nat)
-    (h : (doBridgeCall s a r to d m cs).2 = .ok n) :
-    ∃ timeout, (doBridgeCall s a r to d m cs).1.calls = s.calls ++ [⟨s.nextCallId, a, r, cs, to, d, m, timeout, s.fxHeight⟩] ∧
-      n = s.nextCallId := by
-  unfold doBridgeCall at *
+theorem queued_is_supplied_call (s s' : State) (a r : Addr) (to d m : String) (cs : List (Token × Nat)) (n : Nat)
+    (h : doBridgeCall s a r to d m cs = (s', .ok n)) :
+    ∃ timeout, s'.calls = s.calls ++ [⟨s.nextCallId, a, r, cs, to, d, m, timeout, s.fxHeight⟩] ∧ n = s.nextCallId := by
+  unfold doBridgeCall at h
   split at h
   · cases h
   · split at h
@@ -229,22 +239,23 @@ theorem queued_is_supplied_call (s : State) (a r : Addr) (to d m : String) (cs :
     · simp only at h
       split at h
       · cases h
-      · simp only [Res.ok.injEq] at h
-        exact ⟨_, rfl, h.symm⟩
+      · cases h
+        exact ⟨_, rfl, rfl⟩
 
 /-- `queued_is_supplied` (batch): a new batch consists of transfers taken from the pool, field for field; together with
 the rest of the pool they are exactly the old pool -/
-theorem batch_is_from_pool (s : State) (t : Token) (mf bf : Nat) (fr : String) (n : Nat)
-    (h : (doReqBatch s t mf bf fr).2 = .ok n) :
-    ∃ b, (doReqBatch s t mf bf fr).1.batches = s.batches ++ [b] ∧ b.nonce = s.nextBatchId ∧ b.token = t ∧
-      b.feeReceive = fr ∧ (b.txs ++ (doReqBatch s t mf bf fr).1.pool).Perm s.pool ∧ (∀ x ∈ b.txs, x.token = t) := by
+theorem batch_is_from_pool (s s' : State) (t : Token) (mf bf : Nat) (fr : String) (n : Nat)
+    (h : doReqBatch s t mf bf fr = (s', .ok n)) :
+    ∃ b, s'.batches = s.batches ++ [b] ∧ b.nonce = s.nextBatchId ∧ b.token = t ∧
+      b.feeReceive = fr ∧ (b.txs ++ s'.pool).Perm s.pool ∧ (∀ x ∈ b.txs, x.token = t) ∧
+      b.txs = (pick t bf outgoingTxBatchSize s.pool).1 := by
   have hrm : pickRemovesFromPool = true := by decide
-  unfold doReqBatch at *
-  simp only [hrm, if_true] at *
+  unfold doReqBatch at h
+  simp only [hrm, if_true] at h
   repeat' split at h
   all_goals first
+    | (cases h; exact ⟨_, rfl, rfl, rfl, rfl, pick_perm _ _ _ _, pick_fst_token _ _ _ _, rfl⟩)
     | cases h
-    | exact ⟨_, rfl, rfl, rfl, rfl, pick_perm _ _ _ _, pick_fst_token _ _ _ _⟩
 
 /-- `pick_is_fee_descending_prefix` (refinement of the reverse store iterator): what `pickUnBatchedTx` selects is the
 pool of that contract in iteration order, cut at the first fee below the base fee, cut at the batch size -/
